@@ -241,7 +241,7 @@ pub fn prop(tier: Tier, _seed: u64) -> Prop {
         }
         ctx.class(mix(mix(which as u64 * 2 + forward as u64, (sdepth * 2 + ddepth) as u64), mix(nc as u64 * 2 + inplace as u64, d[7] as u64)));
         ctx.outcome(fnv(out.bytes()));
-    }));
+    }).isolated());
 
     // sRGB 8 -> 16 linear -> 8 is the identity on all 256 values (every component count)
     p.spaces.push(Space::new("sRGB 8->16->8 round trip", 4 * 2, move |idx, ctx| {
@@ -270,7 +270,7 @@ pub fn prop(tier: Tier, _seed: u64) -> Prop {
             ctx.note("gamma2.2 8->16->8 round-trip differences (informational)", bad);
         }
         ctx.outcome(fnv(lin.bytes()));
-    }));
+    }).isolated());
 
     // rejections: mismatched size, component count, unsupported types; destination untouched
     p.spaces.push(Space::new("rejection matrix", 13 * 13 * 3 * 2, move |idx, ctx| {
@@ -324,7 +324,7 @@ pub fn prop(tier: Tier, _seed: u64) -> Prop {
         }
         ctx.class(mix(mix(d[0] as u64, d[1] as u64), var as u64 + 1000));
         ctx.outcome(mix(r.is_ok() as u64, fnv(dst.bytes())));
-    }));
+    }).isolated());
 
     p.rule = "mapper {sRGB, gamma2.2} x direction x {8,16}->{8,16} x 1..4 components x {two-image, in-place} x row widths x container {exact, oversized, cropped view}; each image carries every one of the 256/65536 source values in every channel (channel c of pixel p holds (p+7c) mod V), so every value meets every column incl. row ends; plus the 8->16->8 round trip and the 13x13x3 rejection matrix. distinct_nontrivial counts table entries judged".into();
     p.bounds = json!({"row_widths": widths});
